@@ -112,7 +112,8 @@ pub enum SweepJob {
     StepCube { background: Vec<u8>, lanes: Vec<(usize, usize)>, use_u32: bool, check_state: bool },
     /// For every x = base with the 32-bit lane at `shift` replaced by v (v < 2^bits):
     /// `seed_from_u64(x)` equals `from_seed(reference expansion of x)` and is not the zero state.
-    U64Cube { base: u64, shift: u32, bits: u32 },
+    /// `check_expansion` = false restricts the check to "not the all-zero state" (C08).
+    U64Cube { base: u64, shift: u32, bits: u32, check_expansion: bool },
 }
 
 #[derive(Clone, Debug, Default)]
